@@ -160,7 +160,9 @@ def wfn(title, z, xyz, prims, mos, energy, virial, mospin=None, exp_d=True):
     return "\n".join(out) + "\n"
 
 
-def wfx(title, z, cores, xyz, prims, mos, spins, energy, virial, nalpha, nbeta, charge, gradient=None):
+def wfx(title, z, cores, xyz, prims, mos, spins, energy, virial, nalpha, nbeta, charge, gradient=None, gradient_order=None):
+    """gradient_order: the order in which the (name-labelled) gradient rows are printed; default = order of the nuclei."""
+
     def tag(name, lines):
         return [f"<{name}>"] + list(lines) + [f"</{name}>"]
 
@@ -195,7 +197,7 @@ def wfx(title, z, cores, xyz, prims, mos, spins, energy, virial, nalpha, nbeta, 
     out += tag("Energy = T + Vne + Vee + Vnn", [f" {energy:.14E}"])
     out += tag("Virial Ratio (-V/T)", [f" {virial:.14E}"])
     if gradient is not None:
-        out += tag("Nuclear Cartesian Energy Gradients", [f" {n} " + " ".join(f"{v: .14E}" for v in g) for n, g in zip(names, gradient)])
+        out += tag("Nuclear Cartesian Energy Gradients", [f" {n} " + " ".join(f"{v: .14E}" for v in g) for n, g in [(names[k], gradient[k]) for k in (gradient_order if gradient_order is not None else range(len(names)))]])
     return "\n".join(out) + "\n"
 
 
